@@ -394,7 +394,10 @@ def _decode(x):
                 return int(t, 16)
             if t.startswith("x") and len(t) % 2 == 1 and all(ch in "0123456789abcdef" for ch in t[1:]):
                 return {"b": t[1:]}
-        return {"t": t, "a": [_decode(y) for y in a]}
+        a = [_decode(y) for y in a]
+        if t == "X" and all(isinstance(y, dict) and "b" in y for y in a):
+            return {"b": "".join(y["b"] for y in a)}
+        return {"t": t, "a": a}
     return x
 
 
